@@ -26,7 +26,9 @@ from ..tunnelsim import World, parse_cell
 
 PID = "C05"
 LEVEL = "exploration"
-RULE = ("Hypothesis-drawn operation lists (<= 25 ops quick / 60 thorough) over a world of 4-6 tunnel nodes: open(origin, "
+RULE = ("(plus: packets fed in through a TunnelEndpoint configured for 1-3 hops before / while / after its circuit is built "
+        "must leave through the exit of a circuit of that length - scenario anon_out shared with C04) "
+        "Hypothesis-drawn operation lists (<= 25 ops quick / 60 thorough) over a world of 4-6 tunnel nodes: open(origin, "
         "hops) up to 6 live circuits, send/reply with tagged payloads, burst (all circuits send in the same instant), advance(dt) incl. > 60 s, and adversarial ops "
         "(unknown-id cell, forged cell for a live id, create for an id in use as exit/relay/own circuit, destroy by "
         "adjacent / non-adjacent member / outsider / spoofed source, every reason code), plus: an outside answer during "
@@ -849,12 +851,34 @@ def _shard(ctx: Ctx, shard: int, nshards: int, n: int, max_ops: int) -> None:
     hyp_run(ctx, "id_reuse", reuse, lambda c: run_case(ctx, c), max(4, n // 25))
 
 
+def _anon_shard(ctx: Ctx, shard: int, nshards: int, deep: int) -> None:
+    # traffic fed in through a TunnelEndpoint (hops 1..3) while its circuit is still being built / already ready: it leaves
+    # only through the exit of a circuit of the configured length (scenario shared with C04, clause wrong_exit)
+    from .c04_onion import run_anon_out
+    jobs = [{"kind": "anon_out", "hops": hops, "seed": seed, "early": early, "late": 2, "gap": gap, "size": 30, "stack": stack}
+            for hops in (1, 2, 3) for early in (0, 1, 3) for gap in (0.0, 0.01, 0.3)
+            for stack in (None, "dual") for seed in range(ctx.seed, ctx.seed + (2 if not deep else 12))]
+    for i, case in enumerate(jobs):
+        if i % nshards != shard:
+            continue
+        try:
+            run_anon_out(ctx, case)
+        except Violation as v:
+            ctx.violation(v)
+
+
 def run(ctx: Ctx) -> None:
     if ctx.quick:
         shard_run(ctx, _shard, extra=(250, 25))
+        shard_run(ctx, _anon_shard, extra=(0,))
     else:
         shard_run(ctx, _shard, extra=(12000, 60))
+        shard_run(ctx, _anon_shard, extra=(1,))
 
 
 def replay(ctx: Ctx, case: dict) -> None:
+    if case.get("kind") == "anon_out":
+        from .c04_onion import run_anon_out
+        run_anon_out(None, case)
+        return
     run_case(None, case)
